@@ -20,6 +20,8 @@ type Clause struct {
 type LoopContract struct {
 	N          int
 	Invariants []*Clause
+	Assigns    []string // optional loop frame: only these locations change in the loop (checked at every back edge)
+	HasAssigns bool
 }
 
 type DoStmt struct {
@@ -314,13 +316,22 @@ func (cs *ContractSet) ParseFile(path, pkgPath string) error {
 			if curFn == nil {
 				return fmt.Errorf("%s:%d: assigns outside func", path, line)
 			}
+			if curLoop != nil {
+				curLoop.HasAssigns = true
+				for _, l := range splitCommaTop(rest) {
+					if l = strings.TrimSpace(l); l != "" && l != "nothing" {
+						curLoop.Assigns = append(curLoop.Assigns, l)
+					}
+				}
+				break
+			}
 			curFn.HasAssigns = true
 			for _, l := range splitCommaTop(rest) {
 				if l = strings.TrimSpace(l); l != "" && l != "nothing" {
 					curFn.Assigns = append(curFn.Assigns, l)
 				}
 			}
-			curLoop, curHook = nil, nil
+			curHook = nil
 		case "ghost":
 			if curFn == nil {
 				return fmt.Errorf("%s:%d: ghost outside func", path, line)
